@@ -312,24 +312,36 @@ pub fn run_check(replay: Option<Value>) -> i32 {
     });
     // far from the time origin with small steps (x0 = ±1e9, 500 steps of 2e-4): a time still identifies its
     // own step; nothing in the segment lookup may scale with |t|
-    let fd = vec![dim("method", &M6.iter().map(|m| mname(*m)).collect::<Vec<_>>()), dim("direction", &["forward", "backward(reflected)"])];
+    let fd = vec![dim("method", &M6.iter().map(|m| mname(*m)).collect::<Vec<_>>()), dim("direction", &["forward", "backward(reflected)"]), dim("frequency", &[2.0, 2000.0])];
     lattice(&mut rep, "far", &fd, only.as_deref(), |key, idx| {
         let m = M6[idx[0]];
         let backward = idx[1] == 1;
         let origin = 1e9;
-        let p0 = crate::problems::shift(&base(Base::Harmonic(2.0)), origin);
+        // the fast oscillator turns by 0.2 rad per step: a value taken from a neighbouring step is visibly wrong
+        // (its steps are all given: the automatic first step trips the step-size guards at this distance)
+        let fast = idx[2] == 1;
+        let w = if fast { 2000.0 } else { 2.0 };
+        // (a pure rotation for the fast one: |y| = 1.12, |y'| = 1.12 w in both components)
+        let p0 = crate::problems::shift(&if fast { base(Base::Spiral(0.0, w)) } else { base(Base::Harmonic(w)) }, origin);
         let p = if backward { reflect(&p0) } else { p0 };
         let (x0, xend) = if backward { (-origin, -origin - 0.1) } else { (origin, origin + 0.1) };
         let mut c = Cfg::new(m, x0, xend, &p.y0).tol(1e-6, 1e-8);
         c.user_jac = true;
         c.dense = true;
-        c.max_step = Some(2e-4);
+        c.max_step = Some(if fast { 1e-4 } else { 2e-4 });
         // (RK4's fixed step; Radau's absolute default first step of 1e-6 is below its own step-size guard
         // 0.1|h| > |x| eps at |x| = 1e9, so it is given a first step as well)
         // (RK4's fixed step; Radau's absolute default first step of 1e-6 is below its own step-size guard
         // 0.1|h| > |x| eps at |x| = 1e9, so it is given a first step as well)
         if m == Method::RK4 || m == Method::RADAU {
             c.first_step = Some(if backward { -2e-4 } else { 2e-4 });
+        }
+        if fast {
+            c.first_step = Some(if backward { -1e-4 } else { 1e-4 });
+            c = c.tol(1e-4, 1e-6);
+            c.dense = true;
+            c.user_jac = true;
+            c.max_step = Some(1e-4);
         }
         let r = run(&p, &c);
         let mut out = CaseOut::default();
@@ -338,7 +350,8 @@ pub fn run_check(replay: Option<Value>) -> i32 {
         match r.sol() {
             Some(s) if s.status == Status::Success && s.t.len() > 400 => {
                 // the abscissae themselves are only known to ulp(1e9) = 1.2e-7: allow |y'| * 8 ulp
-                let slack = 8.0 * crate::util::ulp(origin) * 2.5 + 64.0 * f64::EPSILON;
+                let dymax = 1.25 * w;
+                let slack = 8.0 * crate::util::ulp(origin) * dymax + 64.0 * f64::EPSILON;
                 let mut worst: (f64, f64) = (0.0, 0.0);
                 for (t, y) in s.t.iter().zip(&s.y) {
                     match s.sol(*t) {
@@ -360,6 +373,20 @@ pub fn run_check(replay: Option<Value>) -> i32 {
                 if worst.0 > slack {
                     out.violations.push(Violation::new(key, "sample-mismatch", format!("sol({:e}) differs from the stored sample by {:e} (allowed {:e}: eight ulp of the abscissa times |y'|)", worst.1, worst.0, slack), desc.clone()).with("method", mname(m)).with("api", "far-origin").with("backward", backward));
                 }
+                // a quarter into each step the value is still close to the step's left sample
+                if fast {
+                    for k in 0..s.t.len() - 1 {
+                        let h = s.t[k + 1] - s.t[k];
+                        let t = s.t[k] + 0.25 * h;
+                        if let Ok(v) = s.sol(t) {
+                            let d = v.iter().zip(&s.y[k]).fold(0.0f64, |a, (u, w)| a.max((u - w).abs()));
+                            if d > dymax * h.abs() * 0.3 + slack {
+                                out.violations.push(Violation::new(key, "own-step", format!("a quarter into the step from {:e} (length {:e}) sol differs from the step's left sample by {:e}", s.t[k], h, d), desc.clone()).with("method", mname(m)).with("api", "far-origin").with("backward", backward));
+                                break;
+                            }
+                        }
+                    }
+                }
                 // a grid between the samples: against the exact solution
                 let mut werr: f64 = 0.0;
                 for k in 0..s.t.len() - 1 {
@@ -371,7 +398,7 @@ pub fn run_check(replay: Option<Value>) -> i32 {
                 // every step advances the state by h but the abscissa by fl(x + h): a drift of up to one ulp(x)
                 // per step that no solver can avoid
                 let drift = s.t.len() as f64 * crate::util::ulp(origin) * 2.5;
-                if werr > 1e-6 + drift {
+                if !fast && werr > 1e-6 + drift {
                     out.violations.push(Violation::new(key, "far-origin-accuracy", format!("sol at step midpoints is off by {:e}", werr), desc.clone()).with("method", mname(m)).with("api", "far-origin").with("backward", backward));
                 }
                 out.validated = s.t.len() as u64;
